@@ -26,6 +26,10 @@ var reg = vk.Registry{"split": func(raw json.RawMessage) *vk.Violation {
 	var c splitk.Case
 	_ = json.Unmarshal(raw, &c)
 	return splitk.Content(c, splitk.Run(c))
+}, "batchsplit": func(raw json.RawMessage) *vk.Violation {
+	var c splitk.Case
+	_ = json.Unmarshal(raw, &c)
+	return batchContent(c)
 }}
 
 func TestReplay(t *testing.T) { vk.RunReplay(t, reg) }
@@ -59,6 +63,19 @@ func eval(t vk.TB, c splitk.Case, constructed bool) {
 	}
 	rec.Sample(c.Proto, map[string]any{"proto": c.Proto, "coding": c.Coding, "ref": c.Ref, "text_bytes": len(c.Text) / 2, "parts": len(r.Parts), "reported": r.Actual, "text_head": head(c)})
 	rec.Report(t, "split", splitk.Content(c, r))
+	// the batch builder with this coding as its only candidate is the third entry point
+	if c.TextString() != "" {
+		rec.Eval()
+		rec.Report(t, "batchsplit", batchContent(c))
+	}
+}
+
+func batchContent(c splitk.Case) *vk.Violation {
+	v := splitk.Content(c, splitk.RunBatch(c))
+	if v != nil {
+		v.Key = "batch:" + v.Key
+	}
+	return v
 }
 
 func head(c splitk.Case) string {
